@@ -170,12 +170,15 @@ FormProds ==
 ScopeProds ==
   [StmtProds EXCEPT
      !.Template = { <<"Stmt">> },
-     !.Elems  = { <<>>, <<"VS", "N", "VE">> },
+     !.Elems  = { <<>>, <<"VS", "N", "VE">>, <<"BS", "set", "N", "=", "N", "BE">>,  \* a use, or a nested binder with a use
+                  <<"BS", "for", "N", "in", "N", "BE", "VS", "N", "VE", "BS", "endfor", "BE">>,
+                  <<"BS", "macro", "N", "(", "N", ")", "BE", "VS", "N", "VE", "BS", "endmacro", "BE">>,
+                  <<"BS", "call", "N", "(", ")", "BE", "VS", "N", "VE", "BS", "endcall", "BE">> },
      !.ExprT  = { <<"N">> },
      !.Expr   = { <<"N">> },
      !.Expr0  = { <<"N">> },
      !.Args   = { <<>>, <<"N">>, <<"N", "=", "N">> },
-     !.Params = { <<>>, <<"N">>, <<"N", "=", "1">> },
+     !.Params = { <<>>, <<"N">>, <<"N", "=", "1">>, <<"N", ",", "N">> },
      !.Target = { <<"N">> } ]
 Prods == CASE Profile = "stmt" -> StmtProds [] Profile = "forms" -> FormProds
            [] Profile = "scope" -> ScopeProds [] OTHER -> FullProds
@@ -343,12 +346,17 @@ Grow ==
 \* a short string in which markup is open in some configuration, continued by a long
 \* run of one symbol: whatever was opened (a tag, a string literal, a bracket, a comment,
 \* a number, a line statement) is not closed for PumpLen symbols, or never
+\* Symbols that open a nesting level inside a tag are pumped half as often: the property
+\* makes no claim about deeply nested expressions (the recursive-descent parser needs
+\* about 13 Python frames per bracket level), only about long ones.
 MarkupOpen(s) == \E cfg \in SyntaxCfgs : ~PlainData(s, cfg)
+Nesting == {"(", "[", "{", "BS", "VS", "CS"}
+PumpCount(c) == IF c \in Nesting THEN PumpLen \div 2 ELSE PumpLen
 Pump ==
     /\ Mode = "strings" /\ phase = "done" /\ muts = <<>> /\ PumpLen > 0
     /\ Len(out) <= PumpPrefix /\ MarkupOpen(out)
-    /\ \E c \in Sigma : /\ out' = out \o [i \in 1..PumpLen |-> c]
-                        /\ muts' = << <<"pump", c, PumpLen>> >>
+    /\ \E c \in Sigma : /\ out' = out \o [i \in 1..PumpCount(c) |-> c]
+                        /\ muts' = << <<"pump", c, PumpCount(c)>> >>
     /\ UNCHANGED <<stack, phase>>
 
 SkeletonCase ==
@@ -409,7 +417,7 @@ C01_SentencesBalanced ==
 \* plain data in one configuration stays plain data when symbols are appended
 \* that do not complete an opener  (sanity of PlainData: monotone in prefixes)
 C01_PlainPrefixClosed ==
-    (Mode = "strings" /\ out # <<>>) =>
+    (Mode = "strings" /\ out # <<>> /\ muts = <<>>) =>
         \A cfg \in SyntaxCfgs : PlainData(out, cfg) => PlainData(SubSeq(out, 1, Len(out) - 1), cfg)
 
 \* judging is total: every outcome record is classified, and an outcome that is
